@@ -15,7 +15,8 @@ import (
 )
 
 // Val describes a Go value structurally (the Coq model's `goval`).
-//   t = nil | bool | int | flt | str | bytes | list | map | struct
+//
+//	t = nil | bool | int | flt | str | bytes | list | map | struct
 type Val struct {
 	T string   `json:"t"`
 	B bool     `json:"b,omitempty"`
